@@ -22,6 +22,7 @@ import (
 	sdk "github.com/cosmos/cosmos-sdk/types"
 	authtypes "github.com/cosmos/cosmos-sdk/x/auth/types"
 	govtypes "github.com/cosmos/cosmos-sdk/x/gov/types"
+	stakingtypes "github.com/cosmos/cosmos-sdk/x/staking/types"
 	"github.com/ethereum/go-ethereum/common"
 
 	exocoreapp "github.com/ExocoreNetwork/exocore/app"
@@ -68,6 +69,11 @@ type c07Obs struct {
 	Unb    int64        `json:"unb"`
 	Holds  [][2]int64   `json:"holds"`
 	Probe  []c07ProbeKV `json:"probe"`
+	Jailed  []int64      `json:"jailed"`
+	Info    []int64      `json:"info"`
+	JProbe  []c07ProbeKV `json:"jprobe"`
+	Slashed []int64      `json:"slashed"`
+	slashN  []int        // number of slash records per operator (not printed; used to compute Slashed)
 }
 
 type c07QEntry struct {
@@ -89,6 +95,7 @@ type c07Op struct {
 	Tick bool    `json:"tick,omitempty"`
 	Sel  []int64 `json:"sel,omitempty"`
 	Dt   int64   `json:"dt_s,omitempty"`
+	ID   string  `json:"epoch_id,omitempty"`
 }
 
 type c07Step struct {
@@ -105,6 +112,7 @@ type c07Case struct {
 	Keys  []int64   `json:"u_keys"`
 	Recs  []int64   `json:"u_recs"`
 	MaxEp int64     `json:"max_epoch"`
+	MinEp int64     `json:"min_epoch"`
 	Init  c07Obs    `json:"init"`
 	Steps []c07Step `json:"steps"`
 }
@@ -123,6 +131,8 @@ type c07Drv struct {
 	recIdx  map[string]int64 // record key -> record id
 	nextRec int64
 	nonce   uint64
+	slashSeq  int64
+	slashUsed map[[2]int64]bool
 	msg     *operatorkeeper.MsgServerImpl
 	w       *CaseWriter
 }
@@ -139,7 +149,7 @@ func c07NewDrv(w *CaseWriter) *c07Drv {
 		dg.Params.EpochsUntilUnbonded = c07InitUnb
 		gs[dogfoodtypes.ModuleName] = app.AppCodec().MustMarshalJSON(&dg)
 	}})
-	d := &c07Drv{env: env, app: env.App, w: w}
+	d := &c07Drv{env: env, app: env.App, w: w, slashUsed: map[[2]int64]bool{}}
 	d.chainID = avstypes.ChainIDWithoutRevision(env.ChainID)
 	d.avsAddr = avstypes.GenerateAVSAddr(d.chainID)
 	d.keyIdx, d.pubIdx, d.opIdx, d.recIdx = map[string]int64{}, map[string]int64{}, map[string]int64{}, map[string]int64{}
@@ -154,6 +164,9 @@ func c07NewDrv(w *CaseWriter) *c07Drv {
 }
 
 func (d *c07Drv) ctx() sdk.Context { return d.env.Ctx }
+
+// epochID is the epoch identifier the dogfood module currently uses.
+func (d *c07Drv) epochID() string { return d.app.StakingKeeper.GetDogfoodParams(d.ctx()).EpochIdentifier }
 
 // newKey adds one more deterministic consensus key to the pool and returns its id.
 func (d *c07Drv) newKey() int64 {
@@ -222,10 +235,19 @@ func c07SortInts(p []int64) []int64 {
 func (d *c07Drv) observe(extraKeys map[int64]bool) c07Obs {
 	ctx := d.ctx()
 	var o c07Obs
+	o.Jailed, o.Info, o.Slashed = []int64{}, []int64{}, []int64{}
 	for i, op := range d.env.Operators {
 		if d.app.OperatorKeeper.IsOptedIn(ctx, op.String(), d.avsAddr) {
 			o.Opted = append(o.Opted, int64(i))
 		}
+		if inf, err := d.app.OperatorKeeper.GetOptedInfo(ctx, op.String(), d.avsAddr); err == nil {
+			o.Info = append(o.Info, int64(i))
+			if inf.Jailed {
+				o.Jailed = append(o.Jailed, int64(i))
+			}
+		}
+		all, _ := d.app.OperatorKeeper.AllOperatorSlashInfo(ctx, d.avsAddr, op.String())
+		o.slashN = append(o.slashN, len(all))
 	}
 	o.Opted = c07SortInts(o.Opted)
 	// x/operator raw prefixes
@@ -333,7 +355,7 @@ func (d *c07Drv) observe(extraKeys map[int64]bool) c07Obs {
 		o.PUnd = []int64{}
 	}
 	o.EpEnd = dst.Has(dogfoodtypes.EpochEndKey())
-	ei, _ := d.app.EpochsKeeper.GetEpochInfo(ctx, c07EpochID)
+	ei, _ := d.app.EpochsKeeper.GetEpochInfo(ctx, d.epochID())
 	o.Cur = ei.CurrentEpoch
 	o.Unb = int64(d.app.StakingKeeper.GetDogfoodParams(ctx).EpochsUntilUnbonded)
 	// delegation hold counts (raw), zero counts are the same as absent
@@ -374,6 +396,10 @@ func (d *c07Drv) observe(extraKeys map[int64]bool) c07Obs {
 			panic("ValidatorByConsAddrForChainID found without reverse lookup")
 		}
 		o.Probe = append(o.Probe, c07ProbeKV{i, found})
+		o.JProbe = append(o.JProbe, c07ProbeKV{i, d.app.StakingKeeper.IsValidatorJailed(ctx, k.ToConsAddr())})
+		if val := d.app.StakingKeeper.ValidatorByConsAddr(ctx, k.ToConsAddr()); val != nil && val.IsJailed() != o.JProbe[len(o.JProbe)-1].Found {
+			panic("ValidatorByConsAddr.IsJailed differs from IsValidatorJailed")
+		}
 	}
 	return o
 }
@@ -472,6 +498,34 @@ func (d *c07Drv) exec(op *c07Op) string {
 				Authority: authtypes.NewModuleAddress(govtypes.ModuleName).String(), Params: p})
 			return err
 		})
+	case "jail":
+		return d.tx(func(ctx sdk.Context) error { d.app.StakingKeeper.Jail(ctx, d.keys[op.K].ToConsAddr()); return nil })
+	case "unjail":
+		return d.tx(func(ctx sdk.Context) error { d.app.StakingKeeper.Unjail(ctx, d.keys[op.K].ToConsAddr()); return nil })
+	case "slash":
+		// unique (infraction, height) per call: the slash id is derived from them
+		d.slashSeq++
+		inf := stakingtypes.Infraction(d.slashSeq % 3)
+		h := d.ctx().BlockHeight() - (d.slashSeq/3)%d.ctx().BlockHeight()
+		for d.slashUsed[[2]int64{int64(inf), h}] {
+			h--
+			if h < 1 {
+				return "ok"
+			}
+		}
+		d.slashUsed[[2]int64{int64(inf), h}] = true
+		return d.tx(func(ctx sdk.Context) error {
+			d.app.StakingKeeper.SlashWithInfractionReason(ctx, d.keys[op.K].ToConsAddr(), h, 1, sdk.NewDecWithPrec(1, 4), inf)
+			return nil
+		})
+	case "setepochid":
+		return d.tx(func(ctx sdk.Context) error {
+			p := d.app.StakingKeeper.GetDogfoodParams(ctx)
+			p.EpochIdentifier = op.ID
+			_, err := d.app.StakingKeeper.UpdateParams(sdk.WrapSDKContext(ctx), &dogfoodtypes.MsgUpdateParams{
+				Authority: authtypes.NewModuleAddress(govtypes.ModuleName).String(), Params: p})
+			return err
+		})
 	case "setmaxvals":
 		// MaxValidators only influences the selection by vote power, which is an input (sel) of the model:
 		// for the model this is SetUnb with the unchanged value
@@ -495,7 +549,8 @@ func (d *c07Drv) exec(op *c07Op) string {
 		}()
 		return res
 	case "begin":
-		before, _ := d.app.EpochsKeeper.GetEpochInfo(d.ctx(), c07EpochID)
+		eid := d.epochID()
+		before, _ := d.app.EpochsKeeper.GetEpochInfo(d.ctx(), eid)
 		d.app.Commit()
 		h := d.env.Header
 		h.Height++
@@ -504,7 +559,7 @@ func (d *c07Drv) exec(op *c07Op) string {
 		d.app.BeginBlock(abci.RequestBeginBlock{Header: h})
 		d.env.Header = h
 		d.env.Ctx = d.app.BaseApp.NewContext(false, h)
-		after, _ := d.app.EpochsKeeper.GetEpochInfo(d.ctx(), c07EpochID)
+		after, _ := d.app.EpochsKeeper.GetEpochInfo(d.ctx(), eid)
 		op.Tick = after.CurrentEpoch != before.CurrentEpoch
 		if after.CurrentEpoch != before.CurrentEpoch && after.CurrentEpoch != before.CurrentEpoch+1 {
 			panic("epoch counter moved by more than one in a block")
@@ -560,10 +615,13 @@ func (b *c07Builder) noteRecs(o c07Obs) {
 	if o.Cur+o.Unb+2 > b.c.MaxEp {
 		b.c.MaxEp = o.Cur + o.Unb + 2
 	}
+	if b.c.MinEp == 0 || o.Cur-1 < b.c.MinEp {
+		b.c.MinEp = o.Cur - 1 // the epoch clock can be exchanged for one with smaller numbers
+	}
 }
 
 func (b *c07Builder) do(op c07Op) string {
-	if op.Kind == "optinkey" || op.Kind == "setkey" || op.Kind == "setkeyraw" {
+	if op.Kind == "optinkey" || op.Kind == "setkey" || op.Kind == "setkeyraw" || op.Kind == "jail" || op.Kind == "unjail" || op.Kind == "slash" {
 		b.keys[op.K] = true
 		b.used[op.K] = true
 	}
@@ -594,6 +652,25 @@ func (b *c07Builder) do(op c07Op) string {
 }
 
 func (b *c07Builder) push(op c07Op, res string, obs c07Obs) {
+	for i := range obs.slashN {
+		if i < len(b.last.slashN) && obs.slashN[i] > b.last.slashN[i] {
+			obs.Slashed = append(obs.Slashed, int64(i))
+		}
+	}
+	if op.Kind == "setepochid" {
+		op.N = obs.Cur // the current epoch of the identifier in force after the call
+		if obs.Cur != b.last.Cur {
+			b.d.w.Count("setepochid:accepted")
+		} else {
+			b.d.w.Count("setepochid:refused-or-same")
+		}
+	}
+	if op.Kind == "slash" {
+		b.d.w.Count(fmt.Sprintf("slash:operators-hit=%d", len(obs.Slashed)))
+	}
+	if op.Kind == "jail" || op.Kind == "unjail" {
+		b.d.w.Count(fmt.Sprintf("%s:flags-changed=%v", op.Kind, len(obs.Jailed) != len(b.last.Jailed)))
+	}
 	b.c.Steps = append(b.c.Steps, c07Step{op, res, obs})
 	b.noteRecs(obs)
 	b.last = obs
@@ -665,9 +742,14 @@ func (o c07Obs) coq() string {
 	for i, p := range o.Probe {
 		pr[i] = cTuple(cZ(p.Key), cBool(p.Found))
 	}
+	jp := make([]string, len(o.JProbe))
+	for i, p := range o.JProbe {
+		jp[i] = cTuple(cZ(p.Key), cBool(p.Found))
+	}
 	return cApp("mkObs", c07Zs(o.Opted), c07Pairs(o.KOp), c07Pairs(o.KCh), c07Pairs(o.Rev), c07Pairs(o.Prev), c07Zs(o.Rm),
 		c07Zs(o.Vs), c07Q(o.QOpt), c07Q(o.QPrune), c07Q(o.QUnd), c07Pairs(o.Fin), c07Pairs(o.Mat),
-		c07Zs(o.POpt), c07Zs(o.PPrune), c07Zs(o.PUnd), cBool(o.EpEnd), cZ(o.Cur), cZ(o.Unb), c07Pairs(o.Holds), cList(pr))
+		c07Zs(o.POpt), c07Zs(o.PPrune), c07Zs(o.PUnd), cBool(o.EpEnd), cZ(o.Cur), cZ(o.Unb), c07Pairs(o.Holds), cList(pr),
+		c07Zs(o.Jailed), c07Zs(o.Info), cList(jp), c07Zs(o.Slashed))
 }
 
 func (op c07Op) coq() string {
@@ -686,6 +768,14 @@ func (op c07Op) coq() string {
 		return cApp("Undelegate", cZ(op.O), cZ(op.R))
 	case "setunb", "setmaxvals":
 		return cApp("SetUnb", cZ(op.N))
+	case "jail":
+		return cApp("Jail", cZ(op.K))
+	case "unjail":
+		return cApp("Unjail", cZ(op.K))
+	case "slash":
+		return cApp("SlashBy", cZ(op.K))
+	case "setepochid":
+		return cApp("SetClock", cZ(op.N))
 	case "begin":
 		return cApp("BeginBlock", cBool(op.Tick))
 	case "end":
@@ -696,7 +786,7 @@ func (op c07Op) coq() string {
 
 func c07CaseCoq(c *c07Case) string {
 	eps := make([]int64, 0, c.MaxEp+1)
-	lo := c.Init.Cur - 1
+	lo := c.MinEp
 	if lo < 0 {
 		lo = 0
 	}
@@ -860,10 +950,10 @@ func (d *c07Drv) directed(suite string, rng *rand.Rand) {
 	}
 	b.finish(suite)
 
-	// D5 (known finding C07-deselected-key-pruned-immediately): an operator that drops out of the validator set
-	// because MaxValidators shrinks replaces its key right afterwards: the old address, active one block ago, is
-	// unresolvable immediately. Everything is restored afterwards.
-	b = d.begin("kf-C07-deselected-key-pruned-immediately")
+	// D5 (was the known finding C07-deselected-key-pruned-immediately, now repaired): an operator that drops out of the
+	// validator set because MaxValidators shrinks replaces its key right afterwards: the old address, active one block
+	// ago, must stay resolvable for the unbonding period. Everything is restored afterwards.
+	b = d.begin("dir-deselected-key-kept")
 	// make sure at least three operators validate
 	for o := int64(0); o < c07NumOps; o++ {
 		if !c07In(o, b.last.Opted) && !c07In(o, b.last.Rm) {
@@ -889,19 +979,92 @@ func (d *c07Drv) directed(suite string, rng *rand.Rand) {
 	b.block(61)
 	b.block(61)
 	b.finish(suite)
+
+	// D6: jail / slash / unjail by consensus address around a key replacement of the jailed operator
+	b = d.begin("dir-jail-slash")
+	b.do(c07Op{Kind: "setunb", N: 2})
+	jv := int64(-1)
+	var jk int64
+	for _, p := range b.last.KOp {
+		if c07In(p[0], b.last.Opted) && c07In(p[1], b.last.Vs) {
+			jv, jk = p[0], p[1]
+		}
+	}
+	if jv >= 0 {
+		b.do(c07Op{Kind: "slash", K: jk})
+		b.do(c07Op{Kind: "jail", K: jk})
+		b.do(c07Op{Kind: "jail", K: jk})
+		b.do(c07Op{Kind: "optout", O: jv})
+		b.do(c07Op{Kind: "setkey", O: jv, K: b.freeKey(rng)})
+		b.do(c07Op{Kind: "undelegate", O: jv})
+		b.block(61)
+		b.block(7) // the jailed operator has left the stored set
+		nk := b.freeKey(rng)
+		b.do(c07Op{Kind: "setkeyraw", O: jv, K: nk})
+		b.do(c07Op{Kind: "slash", K: jk}) // the old address still reaches the operator
+		b.do(c07Op{Kind: "slash", K: nk})
+		b.do(c07Op{Kind: "unjail", K: jk})
+		b.do(c07Op{Kind: "jail", K: nk})
+		b.do(c07Op{Kind: "unjail", K: nk})
+		for i := 0; i < 4; i++ {
+			b.block(61)
+			b.do(c07Op{Kind: "slash", K: jk})
+			b.do(c07Op{Kind: "jail", K: jk})
+			b.do(c07Op{Kind: "unjail", K: jk})
+		}
+	}
+	b.finish(suite)
+
+	// D7: the dogfood EpochIdentifier parameter. While anything is scheduled the change must be refused (the queue
+	// keys are epoch numbers of the current identifier); with nothing scheduled it is accepted, entries registered
+	// under the new clock are keyed by it, and the way back is again refused until they have matured.
+	b = d.begin("dir-epoch-identifier")
+	b.do(c07Op{Kind: "setunb", N: 1})
+	for _, o := range b.last.Opted {
+		if b.hasKey(o) {
+			b.do(c07Op{Kind: "undelegate", O: o})
+			break
+		}
+	}
+	b.do(c07Op{Kind: "setepochid", ID: "hour"}) // refused if the undelegation was held
+	for i := 0; i < 8 && !b.nothingScheduled(); i++ {
+		b.block(61)
+	}
+	if b.nothingScheduled() {
+		b.do(c07Op{Kind: "setepochid", ID: "hour"}) // accepted
+		for _, o := range b.last.Opted {
+			if b.hasKey(o) {
+				b.do(c07Op{Kind: "undelegate", O: o})
+				break
+			}
+		}
+		b.do(c07Op{Kind: "setepochid", ID: "minute"}) // refused while the entry keyed by the hour clock is waiting
+		for i := 0; i < 6 && (!b.nothingScheduled() || i == 0); i++ {
+			b.block(3601)
+		}
+		b.do(c07Op{Kind: "setepochid", ID: "minute"})
+	}
+	b.block(61)
+	b.block(61)
+	b.finish(suite)
+}
+
+func (b *c07Builder) nothingScheduled() bool {
+	o := b.last
+	return len(o.QOpt) == 0 && len(o.QPrune) == 0 && len(o.QUnd) == 0 && len(o.POpt) == 0 && len(o.PPrune) == 0 && len(o.PUnd) == 0
 }
 
 // ---- random histories -----------------------------------------------------------------------
 
 type c07Mix struct {
-	optinkey, optin, setkey, setkeyraw, optout, undelegate, setunb int
+	optinkey, optin, setkey, setkeyraw, optout, undelegate, setunb, jail, unjail, slash, clock int
 	blockEvery                                          int
 	pTick, pGap                                         int // per cent
 }
 
 func (d *c07Drv) random(suite string, rng *rand.Rand, mix c07Mix, steps int) {
 	b := d.begin()
-	total := mix.optinkey + mix.optin + mix.setkey + mix.setkeyraw + mix.optout + mix.undelegate + mix.setunb
+	total := mix.optinkey + mix.optin + mix.setkey + mix.setkeyraw + mix.optout + mix.undelegate + mix.setunb + mix.jail + mix.unjail + mix.slash + mix.clock
 	sinceBlock := 0
 	for len(b.c.Steps) < steps {
 		if sinceBlock >= 1+rng.Intn(mix.blockEvery) {
@@ -934,6 +1097,14 @@ func (d *c07Drv) random(suite string, rng *rand.Rand, mix c07Mix, steps int) {
 				return b.d.newKey()
 			}
 		}
+		pickAddr := func() int64 {
+			// mostly an address some index still mentions (current, replaced, waiting), sometimes any key of the hot pool
+			m := b.last.keysMentioned()
+			if len(m) > 0 && rng.Intn(5) != 0 {
+				return m[rng.Intn(len(m))]
+			}
+			return int64(rng.Intn(c07NumKeys))
+		}
 		var o int64
 		switch {
 		case x < mix.optinkey:
@@ -960,8 +1131,20 @@ func (d *c07Drv) random(suite string, rng *rand.Rand, mix c07Mix, steps int) {
 			b.do(c07Op{Kind: "optout", O: o})
 		case x < mix.optinkey+mix.optin+mix.setkey+mix.setkeyraw+mix.optout+mix.undelegate:
 			b.do(c07Op{Kind: "undelegate", O: o})
-		default:
+		case x < mix.optinkey+mix.optin+mix.setkey+mix.setkeyraw+mix.optout+mix.undelegate+mix.setunb:
 			b.do(c07Op{Kind: "setunb", N: int64(1 + rng.Intn(c07MaxUnbPl-1))})
+		case x < mix.optinkey+mix.optin+mix.setkey+mix.setkeyraw+mix.optout+mix.undelegate+mix.setunb+mix.jail:
+			b.do(c07Op{Kind: "jail", K: pickAddr()})
+		case x < mix.optinkey+mix.optin+mix.setkey+mix.setkeyraw+mix.optout+mix.undelegate+mix.setunb+mix.jail+mix.unjail:
+			b.do(c07Op{Kind: "unjail", K: pickAddr()})
+		case x < mix.optinkey+mix.optin+mix.setkey+mix.setkeyraw+mix.optout+mix.undelegate+mix.setunb+mix.jail+mix.unjail+mix.slash:
+			b.do(c07Op{Kind: "slash", K: pickAddr()})
+		default:
+			// an attempt to exchange the epoch clock while something is scheduled (must be refused); with nothing
+			// scheduled the exchange is exercised by the directed scenario only, so that the stream keeps ticking
+			if !b.nothingScheduled() {
+				b.do(c07Op{Kind: "setepochid", ID: []string{"hour", "day", "week"}[rng.Intn(3)]})
+			}
 		}
 	}
 	b.block(int64(3 + rng.Intn(8)))
@@ -974,9 +1157,9 @@ func c07Run(a *Args, suite string) error {
 	rng := rand.New(rand.NewSource(a.Seed))
 	d := c07NewDrv(w)
 	d.directed(suite, rng)
-	mix := c07Mix{optinkey: 22, optin: 5, setkey: 24, setkeyraw: 10, optout: 18, undelegate: 18, setunb: 4, blockEvery: 4, pTick: 40, pGap: 6}
+	mix := c07Mix{optinkey: 22, optin: 5, setkey: 24, setkeyraw: 10, optout: 18, undelegate: 16, setunb: 4, jail: 7, unjail: 9, slash: 8, clock: 2, blockEvery: 4, pTick: 40, pGap: 6}
 	if suite == "c16" {
-		mix = c07Mix{optinkey: 14, optin: 3, setkey: 13, setkeyraw: 4, optout: 14, undelegate: 40, setunb: 10, blockEvery: 4, pTick: 40, pGap: 10}
+		mix = c07Mix{optinkey: 14, optin: 3, setkey: 13, setkeyraw: 4, optout: 14, undelegate: 40, setunb: 10, jail: 3, unjail: 4, slash: 3, clock: 4, blockEvery: 4, pTick: 40, pGap: 10}
 	}
 	for w.n < a.N {
 		d.random(suite, rng, mix, 18+rng.Intn(24))
